@@ -13,6 +13,45 @@ COMMON_NOTE = ('Bounded: holds for all values inside the stated bounds under the
                '(translation-validated against the native build on every run), z3 5.1.')
 
 CLAIMS = {
+    'C09': {
+        'text': 'Panic-freedom of the encoded apply and seal kernels (MIR built with overflow checks on): apply_tx_batch on a symbolic '
+                'transaction / batch, the DoscMint validation path with melpow\'s proof-map indexing made explicit, '
+                'Transaction::base_fee / weight, collect_proposer_action_fee, and the three melmint per-pool settlement functions on '
+                '1-2 requests against an arbitrary pool: every assert, overflow check, unwrap / expect / index and division forks a '
+                'path, and the panic side must be unreachable under P-SUPPLY (totals <= 2^127).',
+        'design_ref': 'DESIGN.md §8 C09, §12',
+        'note': COMMON_NOTE + ' Partial: create_builtins / process_pegging / apply_tip_909 and the fee-multiplier step (C17) are not '
+                're-run here; termination is by construction of the kernels (folds over the batch) plus C11; dependencies other than '
+                'the modelled melpow indexing are trusted not to panic. Two known findings (melpow verify, melstructs weight sum).',
+        'technique': 'bounded symbolic execution of rustc MIR; panic paths decided by z3 (bit-vectors) and, for the settlement '
+                     'arithmetic, by an exact translation to non-linear integer arithmetic',
+    },
+    'C15': {
+        'text': 'Symbolic execution of the MIR of src/state/melmint.rs: the three request selectors (kind, pool-key data, first output '
+                'unspent, denominations) on an arbitrary transaction; process_swaps / withdrawals_for_single_pool on 1-2 (thorough 1-3) '
+                'requests and process_deposits_for_single_pool on 1 request against an arbitrary pool: the pool is updated by exactly '
+                'one PoolState operation on the totals, every request is paid in the right denomination its rounded-down pro-rata '
+                'share at the rewritten coin id, payouts never exceed what left the pool, other outputs untouched; multiply_frac = '
+                'floor(x*n/d). PoolState::{swap_many, deposit, withdraw} enter through contracts that C16 discharges on their MIR.',
+        'design_ref': 'DESIGN.md §8 C15, §12',
+        'note': COMMON_NOTE + ' PoolKey::from_bytes / to_bytes are functions of the bytes / key here (injective on canonical keys): the '
+                'non-canonical long-form spellings of a pool name are NOT decided. Known finding: the swap selector has no kind test.',
+        'technique': 'bounded symbolic execution of rustc MIR; mixed u128 / BigRational arithmetic decided after an exact translation '
+                     'to non-linear integer arithmetic (z3, cvc5 second opinion); assume-guarantee with C16 for the pool operations',
+    },
+    'C16': {
+        'text': 'Symbolic execution of the MIR of melstructs PoolState::{swap_many, deposit, withdraw} from an arbitrary pool state with '
+                'reserves and liquidity in [1, 2^127]: no panic, reserves stay non-zero after swaps and partial withdrawals, reserves '
+                'and liquidity move by exactly what is paid in / out, payouts are the rounded-down constant-product / pro-rata amounts, '
+                'the reserve product never decreases, liquidity is minted in proportion (rounded down); and the distribution of minted '
+                'liquidity to depositors (one depositor through process_deposits_for_single_pool, two at formula level).',
+        'design_ref': 'DESIGN.md §8 C16, §12',
+        'note': COMMON_NOTE + ' Partial: existence of the built-in pools after create_builtins / pegging / subsidy is not encoded (one '
+                'operation from an arbitrary pool satisfying the invariant covers every history of that pool). Known finding: several '
+                'deposits in one block over-issue liquidity tokens.',
+        'technique': 'bounded symbolic execution of rustc MIR; non-linear integer arithmetic after an exact translation (division '
+                     'lemmas instead of div), lemma chaining between obligations of one path',
+    },
     'C18': {
         'text': 'Symbolic execution of the MIR of validate_and_get_doscmint_speed (proof_is_tip910, check_dosc_total_output, '
                 'Transaction::total_outputs) on a symbolic DoscMint transaction with 1-2 outputs from an arbitrary state: accepted '
